@@ -1365,3 +1365,50 @@ def cmp_of(sw):
             if m in _CMP_METHODS and ('PartialOrd' in e[1] or 'PartialEq' in e[1] or 'cmp::impls' in e[1]):
                 return (_CMP_METHODS[m], e[2][0], e[2][1])
     return None
+
+
+def assume_scan(facts, fn, oracle, cap=256):
+    """Explore `fn` under assumptions.  oracle(sw) -> None (explore every edge) or a predicate over
+    edge labels selecting the feasible edges of switch `sw`.  Boolean temporaries assigned constants
+    (the lowering of `matches!`, `&&`, `||`) are tracked so a later switch on them follows the value.
+    Returns (exits [(ret block, ret class, parent state)], parent, n_forced)."""
+    sws = all_switches(facts, fn)
+    forced = [0]
+
+    def on_stmt(us, bi, si, pl, rv):
+        if len(pl) == 1 and fn.local_ty(pl[0]) == 'bool' and fn.single_def(pl[0]) is None:
+            d = dict(us)
+            c = op_const(rv[1]) if rv[0] == 'use' else None
+            if c is not None and c[0] in (0, 1):
+                d[pl[0]] = bool(c[0])
+            else:
+                d.pop(pl[0], None)
+            return tuple(sorted(d.items()))
+        return us
+
+    def on_term(us, bi, t):
+        if t['k'] == 'call' and len(t['d']) == 1 and dict(us).get(t['d'][0]) is not None:
+            d = dict(us)
+            d.pop(t['d'][0], None)
+            return tuple(sorted(d.items()))
+        return us
+
+    def on_edge(us, bi, s):
+        sw = sws.get(bi)
+        if sw is None:
+            return us
+        lab = sw.labels.get(s)
+        if sw.kind == 'bool' and sw.subject[0] == 'var' and lab is not None:
+            v = dict(us).get(sw.subject[1])
+            if v is not None and v != lab:
+                return None
+            return us
+        sel = oracle(sw)
+        if sel is not None:
+            forced[0] += 1
+            if lab is None or not sel(lab):
+                return None
+        return us
+
+    exits, ins, parent = scan(fn, (), on_stmt, on_term, on_edge, cap=cap)
+    return [(bi, rc, st) for (bi, us, rc, st) in exits], parent, forced[0]
